@@ -63,14 +63,14 @@ TEXT = {
 
 # lanes added after the first registration (DESIGN.md s9 lists what forced each of them)
 LATER = {
-    "C05": " Later lanes: symlinked / hard-linked module files, module files shared by several roots (through #[path] and by a twin root in the same directory), chains of 33-40 nested out-of-line modules, legal short reads / EINTR on every run, write faults (torn write, errno) in plain files mode. With --backup: the temporary sibling cannot be created or written (the source must be untouched).",
-    "C06": " Later lanes: several inputs per command line, nested overlapping roots, symlinked module file, make_backup from the project file, errno on the k-th mutating call and on stdout ('reported or harmless'), --check combined with --config emit_mode, opted-out sources on stdin (empty report demanded), and 'a file that files mode rewrites is not reported as clean' for the json / checkstyle / modified-lines reports. A one-file input below the first input's directory with a configuration of its own, compared with the same source on standard input.",
-    "C13": " Later lanes: rustc --emit=dep-info cross-check of the model, adversarial decoys, symlinked module files and directories, a stem-named non-directory next to the root, sibling files sharing a child name (fallback vs nested), files that opt out and are named twice, nested cfg_if!/cfg_match!, an ignored file declared through a `..` spelling, a module missing below an inline module. EACCES / ELOOP / EIO on the stat of the project file carrying the exclusions; --backup with a neighbour named <stem>.tmp; a file outside an ignored directory declared from inside it through `..`.",
-    "C14": " Later lanes: legal short reads on every file read, unreadable candidates (errno on stat/open), symlinked configs, both per-user fallbacks, HOME inside the probed chain, absolute spellings with a `..` detour or through a symlinked directory, list-valued options, the library API (override_value and typed setters) through a session driver, lane E (emitter options from the discovered file vs --config-path). Lane F: one key through its dedicated flag and through --config with different values (dump and text are those of the winning value alone).",
-    "C15": " Later lanes: one library API session replaying the orders, overlapping inputs, absolute symlink spellings, every module file formatted inside its tree and alone, I/O error while an earlier input is written, stderr compared across hash seeds, several warning files per tree, --file-lines under several hash seeds, CRLF inputs with the oracle 'multi-input stdout is the single-input outputs in command-line order'.",
-    "C16": " Later lanes: arbitrary re-layout, Unicode / lexer white space substitution, use-group grammar, control options (--color, TERM, RUSTFMT_LOG, -v/-q, --file-lines), lane D (I/O error while emitting), lane M (several inputs with unloadable per-directory configs), lane Y (module cycles), lane T (tiny cfg_if!/cfg_match! files, where a missing result is a hang), lane S (seeded constructs on the narrowest usable pages). Single-segment tool attributes (#[rustfmt]).",
-    "C18": " Later lanes: dev / build path dependencies, a non-member dependency inside the workspace directory, a same-named second path dependency, the workspace's own manifest and `..` / symlink / relative spellings as --manifest-path, failing canonicalisation, cwd in a member's subdirectory.",
-    "C19": " Later lanes: read error / invalid UTF-8 part-way through stdin, E2BIG on spawn, unwritable stdout (EPIPE / ENOSPC) combined with every child kind, absolute post-image paths, paths shorter than -p, ungrouped alternation filters, git-quoted non-ASCII paths.",
+    "C05": " Later lanes: symlinked / hard-linked module files, module files shared by several roots (through #[path] and by a twin root in the same directory), chains of 33-40 nested out-of-line modules, legal short reads / EINTR on every run, write faults (torn write, errno) in plain files mode. With --backup: the temporary sibling cannot be created or written (the source must be untouched). Configuration files that are TOML but not UTF-8.",
+    "C06": " Later lanes: several inputs per command line, nested overlapping roots, symlinked module file, make_backup from the project file, errno on the k-th mutating call and on stdout ('reported or harmless'), --check combined with --config emit_mode, opted-out sources on stdin (empty report demanded), and 'a file that files mode rewrites is not reported as clean' for the json / checkstyle / modified-lines reports. A one-file input below the first input's directory with a configuration of its own, compared with the same source on standard input. Lane L: a module declared through dir/../file.rs where dir is a symbolic link elsewhere, with a bystander at the lexically folded path.",
+    "C13": " Later lanes: rustc --emit=dep-info cross-check of the model, adversarial decoys, symlinked module files and directories, a stem-named non-directory next to the root, sibling files sharing a child name (fallback vs nested), files that opt out and are named twice, nested cfg_if!/cfg_match!, an ignored file declared through a `..` spelling, a module missing below an inline module. EACCES / ELOOP / EIO on the stat of the project file carrying the exclusions; --backup with a neighbour named <stem>.tmp; a file outside an ignored directory declared from inside it through `..`. --config-path naming the project file's directory in non-canonical spellings.",
+    "C14": " Later lanes: legal short reads on every file read, unreadable candidates (errno on stat/open), symlinked configs, both per-user fallbacks, HOME inside the probed chain, absolute spellings with a `..` detour or through a symlinked directory, list-valued options, the library API (override_value and typed setters) through a session driver, lane E (emitter options from the discovered file vs --config-path). Lane F: one key through its dedicated flag and through --config with different values (dump and text are those of the winning value alone). Lane D: --print-config default / minimal printed, written to a fresh path and over a longer file, and reloaded.",
+    "C15": " Later lanes: one library API session replaying the orders, overlapping inputs, absolute symlink spellings, every module file formatted inside its tree and alone, I/O error while an earlier input is written, stderr compared across hash seeds, several warning files per tree, --file-lines under several hash seeds, CRLF inputs with the oracle 'multi-input stdout is the single-input outputs in command-line order'. A working directory that cannot be named (getcwd fails) with absolute inputs; HOME naming a directory inside the project.",
+    "C16": " Later lanes: arbitrary re-layout, Unicode / lexer white space substitution, use-group grammar, control options (--color, TERM, RUSTFMT_LOG, -v/-q, --file-lines), lane D (I/O error while emitting), lane M (several inputs with unloadable per-directory configs), lane Y (module cycles), lane T (tiny cfg_if!/cfg_match! files, where a missing result is a hang), lane S (seeded constructs on the narrowest usable pages). Single-segment tool attributes (#[rustfmt]). Lane P: the reader of standard output gone (EPIPE + SIGPIPE) in stdin mode; modules declared through absolute paths that are not in normal form under an ignore list.",
+    "C18": " Later lanes: dev / build path dependencies, a non-member dependency inside the workspace directory, a same-named second path dependency, the workspace's own manifest and `..` / symlink / relative spellings as --manifest-path, failing canonicalisation, cwd in a member's subdirectory. Outside packages reached only as later entries of a dependency list; a package named twice with -p.",
+    "C19": " Later lanes: read error / invalid UTF-8 part-way through stdin, E2BIG on spawn, unwritable stdout (EPIPE / ENOSPC) combined with every child kind, absolute post-image paths, paths shorter than -p, ungrouped alternation filters, git-quoted non-ASCII paths. Filters whose leftmost-first match stops short of a path they match as a whole; a formatter path that is not UTF-8.",
     "C20": " Later lanes: CRLF / BOM sources, leftovers of earlier runs, format-edit-format history, symlinked and hard-linked files, stem collisions, a file reached again by a second input (twin root, module as own input, two-pass texts), files whose own name ends in .tmp / .bk. Directories whose real path cannot be determined (realpath fails) with the configuration named explicitly.",
 }
 
